@@ -158,7 +158,8 @@ def _phase(fs):
 
 
 # ---------------------------------------------------------------------------
-def case_session(log, scenario, nfaults=1):
+def case_session(log, scenario, nfaults=1, k1lo=0, k1hi=BIG):
+    """k1lo..k1hi: the part of the domain of the first crash index handled by this case (parallelism only)."""
     log.encode(*iofs.encoded_functions())
     if scenario == "solve":
         from eko.runner import managed, recipes, operators as rops
@@ -176,6 +177,8 @@ def case_session(log, scenario, nfaults=1):
         for k in ks:
             assume_z3(k.e >= 0)
             assume_z3(k.e <= BIG)
+        assume_z3(ks[0].e >= k1lo)
+        assume_z3(ks[0].e <= k1hi)
         fs = FS(faults=ks)
         tags = _model_tags()
         w = ModelWorld(fs, tags)
@@ -229,8 +232,8 @@ def case_session(log, scenario, nfaults=1):
     # the explored paths exhaust the crash-index domain
     ctx.reset()
     ks = [z3.Int("k%d" % (i + 1)) for i in range(nfaults)]
-    dom = [z3.And(k >= 0, k <= BIG) for k in ks]
-    v = prove_formula(z3.Or(covered), "[%s] the %d explored paths cover every crash index 0 <= k <= %d (%d faults)" % (scenario, len(covered), BIG, nfaults),
+    dom = [z3.And(k >= 0, k <= BIG) for k in ks] + [ks[0] >= k1lo, ks[0] <= k1hi]
+    v = prove_formula(z3.Or(covered), "[%s] the %d explored paths cover every crash index %d <= k1 <= %d, 0 <= k2 <= %d (%d faults)" % (scenario, len(covered), k1lo, k1hi, BIG, nfaults),
                       assumptions=dom, timeout_ms=60000)
     log.decide(v, key="%s:coverage" % scenario)
     _dec.finish()
@@ -470,8 +473,10 @@ def main():
         chk.case("single.%s" % sc, case_session, scenario=sc, nfaults=1)
     chk.case("validate", case_validate)
     if tier == "thorough":
+        cuts = [0, 12, 24, 34, 44, 54, 64, BIG + 1]
         for sc in ("new", "edit", "solve"):
-            chk.case("pairs.%s" % sc, case_session, scenario=sc, nfaults=2)
+            for lo, hi in zip(cuts[:-1], cuts[1:]):
+                chk.case("pairs.%s.k1_%d_%d" % (sc, lo, hi - 1), case_session, scenario=sc, nfaults=2, k1lo=lo, k1hi=hi - 1)
     return chk.run()
 
 
